@@ -38,6 +38,9 @@ func MockSpecs(thorough bool) []*spec.Spec {
 	mk("message_repeated", "kind=message,card=repeated", spec.M("Resp", spec.Msg("val", "Inner").Rep()), []*spec.Message{spec.M("Inner", spec.F("name", "string"))}, nil)
 	mk("message_map", "kind=message,card=map", spec.M("Resp", spec.Msg("val", "Inner").Map()), []*spec.Message{spec.M("Inner", spec.F("name", "string"), spec.F("flag", "bool"))}, nil)
 	mk("timestamp_singular", "kind=timestamp,card=singular", spec.M("Resp", spec.Ts("val")), nil, nil)
+	mk("timestamp_map", "kind=timestamp,card=map", spec.M("Resp", spec.Ts("val").Map(), spec.F("label", "string")), nil, nil)
+	mk("timestamp_repeated", "kind=timestamp,card=repeated", spec.M("Resp", spec.Ts("val").Rep(), spec.F("label", "string")), nil, nil)
+	mk("message_nested_map", "kind=message,card=nested_map", spec.M("Resp", spec.Msg("val", "Inner").Map()), []*spec.Message{spec.M("Inner", spec.F("name", "string"), spec.Ts("stamps").Map())}, nil)
 	mk("oneof", "kind=oneof,card=singular", spec.M("Resp", spec.F("a", "string").In("pick"), spec.F("b", "int64").In("pick")).WithOneof(&spec.Oneof{Name: "pick"}), nil, nil)
 	mk("recursive", "kind=message,card=recursive", spec.M("Resp", spec.F("label", "string"), spec.Msg("next", "Resp"), spec.Msg("kids", "Resp").Map()), nil, nil)
 	// examples
